@@ -2,7 +2,7 @@
 META = {
     "level": "fault_enumeration",
     "technique": "syscall-granular crash-point enumeration (vf.fsx) of the real StorageServer on real directories: the operation is re-executed once per crash index, a fresh StorageServer is built on the surviving directory and the statement's invariants are evaluated through the server API; in-process crash model cross-checked against strace (syscall trace equality per workload, real SIGKILL at the N-th system call for sampled crash points)",
-    "text": "Seeded workloads on a real allmydata.storage.server.StorageServer next to bystander shares (immutable and mutable, sharing prefix directories with the target): immutable upload (new storage index / next to existing shares, batched and unbatched writes, interleaved closes, a second upload still in progress), add_lease / renew_lease on immutable shares with 1..10 and mutable shares with 0..10 leases, mutable create, in-place write, grow (extra-lease relocation, zero fill), truncate, delete, multi-share writev, and the lease expirer (real LeaseCheckingCrawler.start_slice, cutoff-date mode) cancelling leases and deleting shares.  For EVERY operation index n of the workload (every completed write(2)/ftruncate/rename/unlink/mkdir/rmdir/creat, as decided by CPython's real buffering over a counting FileIO) the process is 'killed' before operation n, a fresh StorageServer is constructed on the directory and: (1) every share the operation does not target has identical data (full read through get_buckets/slot_readv, same length) and identical lease list, (2) after a lease-only operation every share's data is identical, (3) every immutable share present equals the model (complete) -- else it must be absent, (4) incoming/ is empty and the interrupted upload can be repeated.  Damage to the leases/data of the share being written is counted as observation only (the statement exempts it).  Every workload is first run to completion without a crash and judged by the same invariants, and every uncrashed set-up operation (the add_lease calls that give shares their 0..10 leases, the uploads and writes that create the bystanders) is judged as well: a lease-only operation changes no share's data and drops no lease, no operation changes a share it does not name; an exception of the code under test during set-up is reported through those findings, and makes the workload inconclusive only when nothing was found.",
+    "text": "Seeded workloads on a real allmydata.storage.server.StorageServer next to bystander shares (immutable and mutable, sharing prefix directories with the target): immutable upload (new storage index / next to existing shares, batched and unbatched writes, interleaved closes, a second upload still in progress), add_lease / renew_lease on immutable shares with 1..10 and mutable shares with 0..10 leases (renewals at a later clock time, of the first / a middle / the last record and of mutable leases number 5+ whose records live behind the share data), mutable create, in-place write, grow (extra-lease relocation, zero fill), truncate, delete, multi-share writev, and the lease expirer (real LeaseCheckingCrawler.start_slice, cutoff-date mode) cancelling leases and deleting shares.  For EVERY operation index n of the workload (every completed write(2)/ftruncate/rename/unlink/mkdir/rmdir/creat, as decided by CPython's real buffering over a counting FileIO) the process is 'killed' before operation n, a fresh StorageServer is constructed on the directory and: (1) every share the operation does not target has identical data (full read through get_buckets/slot_readv, same length) and identical lease list, (2) after a lease-only operation every share's data is identical, (3) every immutable share present equals the model (complete) -- else it must be absent, (4) incoming/ is empty and the interrupted upload can be repeated.  Damage to the leases/data of the share being written is counted as observation only (the statement exempts it).  Every workload is first run to completion without a crash and judged by the same invariants, and every uncrashed set-up operation (the add_lease calls that give shares their 0..10 leases, the uploads and writes that create the bystanders) is judged as well: a lease-only operation changes no share's data and drops no lease, no operation changes a share it does not name; an exception of the code under test during set-up is reported through those findings, and makes the workload inconclusive only when nothing was found.",
     "note": "Crash model: SIGKILL (kernel keeps completed system calls, user-space buffers are lost); no power loss, no torn single write(2).  Trusts vf.fsx (validated against strace in the same run: a mismatch makes the run inconclusive) and the virtual clock substituted for time.time in storage.lease/crawler/expirer.",
 }
 LEVEL = "fault_enumeration"
@@ -315,7 +315,7 @@ def immutable_share_setup(sc, rng, si, shnums, size, nleases):
 
 
 SCENARIOS = ["upload-new", "upload-next-to-existing", "upload-while-other-in-progress",
-             "imm-add-lease", "imm-renew", "mut-add-lease", "mut-renew",
+             "imm-add-lease", "imm-renew", "mut-add-lease", "mut-renew", "mut-renew-extra-slot",
              "mut-create", "mut-write-inplace", "mut-grow", "mut-truncate", "mut-delete",
              "mut-multi-share", "expire"]
 
@@ -383,7 +383,7 @@ def _make_scenario(sc, name, rng):
                 sc.op = {"op": "renew_lease", "si": H(si), "renew": which}
             else:
                 sc.op = {"op": "add_lease", "si": H(si), "renew": which, "cancel": secret(rng)}
-    elif name in ("mut-add-lease", "mut-renew"):
+    elif name in ("mut-add-lease", "mut-renew", "mut-renew-extra-slot"):
         si = si_with_prefix(rng, prefix)
         secs = [secret(rng), secret(rng), secret(rng)]
         shnums = sorted(rng.sample(range(4), rng.randint(1, 2)))
@@ -391,6 +391,9 @@ def _make_scenario(sc, name, rng):
         p.update(size=rng.choice([0, 1, 100, 2000]),
                  nleases=rng.choice([0, 1, 2, 3, 3, 4, 4, 5, 7, 10][0 if name == "mut-add-lease" else 1:]),
                  shnums=shnums)
+        if name == "mut-renew-extra-slot":
+            # the renewed lease is number 5+ : its record lives behind the share data, not in the header
+            p.update(size=rng.choice([8, 100, 2000]), nleases=rng.choice([5, 6, 8, 10]))
         for sh in shnums:
             mutable_share_setup(sc, rng, si, sh, secs, p["size"], 1 if p["nleases"] else 0)
         renewable = [secs[1]] if p["nleases"] else []
@@ -406,7 +409,8 @@ def _make_scenario(sc, name, rng):
             sc.op = {"op": "add_lease", "si": H(si), "renew": secret(rng), "cancel": secret(rng)}
         else:
             p["via"] = rng.choice(["renew_lease", "add_lease"])
-            which = rng.choice(renewable)
+            which = rng.choice(renewable if name == "mut-renew" else renewable[4:])
+            p["which"] = renewable.index(which)      # = lease slot number (slots fill in order)
             if p["via"] == "renew_lease":
                 sc.op = {"op": "renew_lease", "si": H(si), "renew": which}
             else:
@@ -871,7 +875,8 @@ def run(ck):
     ck.require_monitor("non-target-unchanged", "lease-op-data-unchanged", "immutable-complete-or-absent",
                        "incoming-empty-after-restart", "strace-trace-equality", "real-kill-agreement")
     ck.require_reach("crash-in-lease-append", "crash-in-container-growth", "crash-in-rename-window",
-                     "crash-in-expirer-cancel", "upload-discarded-and-repeated")
+                     "crash-in-expirer-cancel", "upload-discarded-and-repeated",
+                     "renewed-mutable-lease-beyond-slot-4")
 
 
 def enumerate_scenario(ck, sc, per_scenario, windows, fidelity_jobs, rounds):
@@ -921,6 +926,8 @@ def enumerate_scenario(ck, sc, per_scenario, windows, fidelity_jobs, rounds):
         ck.mon("incoming-empty-after-restart")
         if sc.lease_only:
             ck.mon("lease-op-data-unchanged")
+            if n == N and sc.name.startswith("mut-renew") and sc.params.get("which", 0) >= 4 and N > 0:
+                ck.hit("renewed-mutable-lease-beyond-slot-4")     # N > 0: the renewal did write
         nxt = ops[n] if n < N else None
         if nxt is not None:
             reach(ck, sc, ops, n)
@@ -1088,6 +1095,8 @@ def fidelity_stage(ck, jobs):
 #                                             ftruncate and write shows it)                   -> immutable-share-damaged
 #   c29-mutable-lease-add-touches-data-length mutable add_lease bumps and restores the data length (only a crash between
 #                                             the two writes shows it)                        -> lease-op-changed-mutable-data
+#   seeded/C29-6 (mutable renew patches the expiry at the header-slot offset also for leases 5+ = share data bytes 4..7)
+#                                             -> lease-op-changed-mutable-data (workload mut-renew-extra-slot, no crash)
 #   seeded/C29-4 (fifth mutable lease written over the first 92 data bytes, no crash needed)
 #                                             -> lease-op-changed-mutable-data (uncrashed set-up add_lease), uncrashed-lease-op-lost-leases
 # Tried and dropped: mis-placing mutable lease slots (offset arithmetic) -- those breaks make every set-up fail
